@@ -10,6 +10,9 @@ Theorems about the model of `h2/relay.go` + `h2/queued_frames.go` (`Model/H2Rela
   concatenated block, END_STREAM / priority / promised id of the opening frame, the same reset
   codes and priorities; SETTINGS, PING, GOAWAY become direct writes with identical contents.
 * `accepted_is_image_of_calls`, `data_split_faithful`, `chunks_concat`: what the sinks enqueue.
+* `header_block_frames_fit`, `push_block_frames_fit`: a header block of any length is fragmented
+  into frames whose payloads (with the priority / promised-id octets) respect the receiver's
+  MAX_FRAME_SIZE, and the fragments concatenate to the encoded block.
 * `per_stream_order_and_content` (= no loss, no duplication, per-stream order): for ANY history of
   sink calls interleaved with ANY window schedule and any map iteration orders, on every stream
   `emitted ++ still queued = image of the calls`.
@@ -191,6 +194,55 @@ theorem chunks_concat (firstMax contMax : Nat) (data : Bytes) (hc : 0 < contMax)
             | cons x xs => simp; omega
           · exact ih _ c h
     exact key _ _ c hcm
+
+private theorem foldl_max_le (l : List Nat) (a m : Nat) (ha : a ≤ m) (hl : ∀ x ∈ l, x ≤ m) : l.foldl max a ≤ m := by
+  induction l generalizing a with
+  | nil => simpa
+  | cons x rest ih =>
+    simp only [List.foldl_cons]
+    apply ih
+    · have := hl x (by simp); omega
+    · intro y hy; exact hl y (by simp [hy])
+
+/-- **A fragmented header block is deliverable (HEADERS).** What `relay.header` enqueues for an
+encoded block of ANY length, with or without priority, under any legal MAX_FRAME_SIZE of the
+receiver (≥ 5 suffices): the fragments concatenate to the encoded block, and every frame `send`
+puts on the wire — the HEADERS frame *including its 5 priority octets*, and each CONTINUATION —
+has a payload of at most the receiver's MAX_FRAME_SIZE, so an endpoint that enforces the limit it
+advertised (FRAME_SIZE_ERROR otherwise) receives the whole block. -/
+theorem header_block_frames_fit (r : Relay) (sid : Nat) (fields : Bytes) (es : Bool) (prio : Prio)
+    (encoded : Bytes) (hm : 5 ≤ r.maxFrame) :
+    ∃ chunks, acceptedOf r (.header sid fields es prio encoded) = [.headers sid es prio r.nextStamp fields chunks] ∧
+      chunks.flatten = encoded ∧
+      (QFrame.headers sid es prio r.nextStamp fields chunks).wireMax ≤ r.maxFrame := by
+  refine ⟨_, rfl, (chunks_concat _ _ encoded (by omega)).1, ?_⟩
+  simp only [QFrame.wireMax, splitIntoChunks]
+  apply foldl_max_le
+  · simp only [List.length_take]; split <;> omega
+  · intro x hx
+    simp only [List.mem_map] at hx
+    obtain ⟨c, hc, rfl⟩ := hx
+    exact chunkRest_le _ _ _ c hc
+
+/-- **… and PUSH_PROMISE**: the first frame carries the 4 octets of the promised stream id. -/
+theorem push_block_frames_fit (r : Relay) (sid promised : Nat) (fields encoded : Bytes) (hm : 5 ≤ r.maxFrame) :
+    ∃ chunks, acceptedOf r (.push sid promised fields encoded) = [.push sid promised r.nextStamp fields chunks] ∧
+      chunks.flatten = encoded ∧
+      (QFrame.push sid promised r.nextStamp fields chunks).wireMax ≤ r.maxFrame := by
+  refine ⟨_, rfl, (chunks_concat _ _ encoded (by omega)).1, ?_⟩
+  simp only [QFrame.wireMax, splitIntoChunks]
+  apply foldl_max_le
+  · simp only [List.length_take]; omega
+  · intro x hx
+    simp only [List.mem_map] at hx
+    obtain ⟨c, hc, rfl⟩ := hx
+    exact chunkRest_le _ _ _ c hc
+
+/-- Test (tightness): with the two size arguments of `splitIntoChunks` exchanged, or the metadata
+octets not deducted from the first fragment, the first frame is larger than the limit. -/
+example : (QFrame.headers 1 false ⟨0, false, 15⟩ 0 [] (splitIntoChunks 8 (8 - 5) (List.replicate 9 0))).wireMax = 13 := by decide
+example : (QFrame.push 1 2 0 [] (splitIntoChunks 8 (8 - 4) (List.replicate 9 0))).wireMax = 12 := by decide
+example : (QFrame.headers 1 false ⟨0, false, 15⟩ 0 [] (splitIntoChunks (8 - 5) 8 (List.replicate 9 0))).wireMax = 8 := by decide
 
 /-- Frames enqueued by a whole history. -/
 def acceptedRun : Relay → List RIn → List QFrame
